@@ -787,6 +787,7 @@ pub fn run_ints(ctx: &Ctx, mode: Mode) -> Report {
         }
         into_prim_table!(ip);
     } else {
+        produced_values(ctx, &mut subs);
         let mut sub = Sub::new("controller_number_constants", "all 73 controller_numbers::* constants", "constants", true);
         sub.eval(0, || json!({"conv": "controller_constants"}), check_controller_constants);
         sub.eval(1, || json!({"conv": "controller_constants"}), check_controller_constants);
@@ -830,6 +831,18 @@ pub fn replay_ints(mode: Mode, _sub: &str, case: &Value) -> Option<CheckResult> 
         }
         "consts" => by_target!(check_consts(mode)),
         "controller_constants" => Some(check_controller_constants()),
+        "produced_cc14" => Some(produced_cc14(json_u8(&case["channel"]).filter(|c| *c < 16)?, json_u8(&case["controller"]).filter(|c| *c < 32)?, json_u64(&case["value"]).filter(|c| *c < 16384)? as u16)),
+        "produced_pn" => {
+            let c = json_u64(&case["ctor"]).filter(|c| *c < 8)? as usize;
+            let value = json_u64(&case["value"]).filter(|v| *v <= crate::p_nrpn::value_max(c) as u64)? as u16;
+            Some(produced_pn(c, json_u8(&case["channel"]).filter(|c| *c < 16)?, json_u64(&case["number"]).filter(|c| *c < 16384)? as u16, value, case["lsb_first"].as_bool()?))
+        }
+        "produced_scanners" => Some(produced_by_scanners(&crate::ops::ops_from(&case["cc14_ops"])?, &crate::ops::ops_from(&case["nrpn_ops"])?).map(|o| o.nontrivial)),
+        "produced_factory" => {
+            let c = crate::p_factory::NAMED.iter().position(|n| Some(*n) == case["ctor"].as_str())?;
+            let i = json_u64(&case["index"]).filter(|i| *i < crate::p_factory::named_domain(c))?;
+            Some(crate::p_factory::named_range(c, i))
+        }
         "parse" => {
             let s = case["string"].as_str()?.to_string();
             by_target!(check_parse(mode, &s))
@@ -880,5 +893,179 @@ pub fn replay_ints(mode: Mode, _sub: &str, case: &Value) -> Option<CheckResult> 
             out
         }
         _ => None,
+    }
+}
+
+// ---------------------------------------------------------------------------------------------
+// C04: values produced by factories, encoders and scanners
+// ---------------------------------------------------------------------------------------------
+
+fn produced_values(ctx: &Ctx, subs: &mut Vec<Sub>) {
+    use crate::ops::*;
+    use crate::p_factory::{named_domain, named_range, NAMED};
+    use crate::refmodel::*;
+    use helgoboss_midi::{ControlChange14BitMessage, ControlChange14BitMessageScanner, DataEntryByteOrder, ParameterNumberMessageScanner, RawShortMessage, ShortMessage, StructuredShortMessage};
+    // factories
+    {
+        let stride = ctx.pick(31u64, 3, 1);
+        let mut blocks: Vec<(usize, u64)> = Vec::new();
+        for c in 0..NAMED.len() {
+            let n = named_domain(c);
+            blocks.push((c, if n >= 1024 { (n + stride - 1) / stride } else { n }));
+        }
+        let total: u64 = blocks.iter().map(|b| b.1).sum();
+        let proto = Sub::new(
+            "produced_by_factories",
+            &format!("every accessor value (and those of to_structured) of messages built by the 19 named constructors in 4 implementations (argument stride {})", stride),
+            "non-trivial = every built message",
+            stride == 1,
+        );
+        let decode = move |mut j: u64| -> (usize, u64) {
+            for (c, cnt) in blocks.iter() {
+                if j < *cnt {
+                    let n = named_domain(*c);
+                    return (*c, if n >= 1024 { (j * stride).min(n - 1) } else { j });
+                }
+                j -= *cnt;
+            }
+            unreachable!()
+        };
+        let mut sub = par_enum(ctx, &proto, total, |sub, j| {
+            let (c, i) = decode(j);
+            sub.eval(i as u128, || json!({"conv": "produced_factory", "ctor": NAMED[c], "index": i}), || named_range(c, i));
+        });
+        sub.add_samples(total, ctx.seed, |j| {
+            let (c, i) = decode(j);
+            json!({"conv": "produced_factory", "ctor": NAMED[c], "index": i})
+        });
+        sub.samples.truncate(3);
+        subs.push(sub);
+    }
+    // encoders
+    {
+        let proto = Sub::new(
+            "produced_by_encoders",
+            "data bytes of the short messages produced by ControlChange14BitMessage::to_short_messages (all messages, stride) and ParameterNumberMessage::to_short_messages (dimension sweeps, both byte orders) into Raw and Structured",
+            "non-trivial = every encoded message",
+            false,
+        );
+        let stride = ctx.pick(257u64, 17, 1);
+        let n = 16u64 * 32 * 16384 / stride;
+        let mut sub = par_enum(ctx, &proto, n, |sub, j| {
+            let i = j * stride;
+            let (ch, cn, v) = ((i / (32 * 16384)) as u8, ((i / 16384) % 32) as u8, (i % 16384) as u16);
+            sub.eval(i as u128, || json!({"conv": "produced_cc14", "channel": ch, "controller": cn, "value": v}), || produced_cc14(ch, cn, v));
+        });
+        let st = ctx.pick(97usize, 7, 1);
+        let mut m = Mix(ctx.sub_seed("produced_pn"));
+        for c in 0..8usize {
+            let vmax = crate::p_nrpn::value_max(c);
+            for number in (0..16384u16).step_by(st) {
+                let value = (m.below(vmax as u64 + 1)) as u16;
+                for lsb_first in [false, true] {
+                    sub.eval(number as u128, || json!({"conv": "produced_pn", "ctor": c, "channel": number % 16, "number": number, "value": value, "lsb_first": lsb_first}), || produced_pn(c, (number % 16) as u8, number, value, lsb_first));
+                }
+            }
+            for value in (0..=vmax).step_by(st) {
+                let number = m.below(16384) as u16;
+                sub.eval(value as u128, || json!({"conv": "produced_pn", "ctor": c, "channel": 15, "number": number, "value": value, "lsb_first": true}), || produced_pn(c, 15, number, value, true));
+            }
+        }
+        sub.exhaustive = false;
+        sub.samples.push(json!({"conv": "produced_cc14", "channel": 15, "controller": 31, "value": 16383}));
+        subs.push(sub);
+    }
+    // scanners (the two that exist in every configuration)
+    {
+        let proto = Sub::new(
+            "produced_by_scanners",
+            "fields of every message reported by the 14-bit CC scanner and the (N)RPN scanner on seeded random histories over the full alphabet",
+            "non-trivial = history with a report; distinct by hash",
+            false,
+        );
+        let cases = ctx.pick(1_000u64, 10_000, 200_000);
+        let sub = par_proptest(
+            ctx,
+            &proto,
+            cases,
+            || (history_strategy(Kind::Cc14, 64), history_strategy(Kind::Nrpn, 64)),
+            |c: &(RawHistory, RawHistory)| json!({"conv": "produced_scanners", "cc14_ops": ops_json(&concretize(Kind::Cc14, &c.0, 0)), "nrpn_ops": ops_json(&concretize(Kind::Nrpn, &c.1, 0))}),
+            |c: &(RawHistory, RawHistory)| produced_by_scanners(&concretize(Kind::Cc14, &c.0, 0), &concretize(Kind::Nrpn, &c.1, 0)),
+        );
+        subs.push(sub);
+    }
+}
+
+fn check_bytes(m: &helgoboss_midi::RawShortMessage) -> Result<(), Fail> {
+    use helgoboss_midi::ShortMessage;
+    let b = api(|| m.to_bytes());
+    ensure!(b.1.get() <= 127 && b.2.get() <= 127, "produced_out_of_range/encoder", "{:?}", m);
+    Ok(())
+}
+
+fn produced_cc14(ch: u8, cn: u8, v: u16) -> CheckResult {
+    use crate::refmodel::*;
+    use helgoboss_midi::{ControlChange14BitMessage, RawShortMessage, ShortMessage, StructuredShortMessage};
+    let msg = ControlChange14BitMessage::new(h_ch(ch), h_cn(cn), h_u14(v));
+    let a: [RawShortMessage; 2] = api(|| msg.to_short_messages());
+    check_bytes(&a[0])?;
+    check_bytes(&a[1])?;
+    let s: [StructuredShortMessage; 2] = api(|| msg.to_short_messages());
+    for x in s.iter() {
+        let b = api(|| x.to_bytes());
+        ensure!(b.1.get() <= 127 && b.2.get() <= 127, "produced_out_of_range/encoder", "{:?}", x);
+    }
+    ensure!(api(|| msg.lsb_controller_number()).get() <= 127 && api(|| msg.value()).get() <= 16383 && api(|| msg.channel()).get() <= 15, "produced_out_of_range/cc14_accessor", "{:?}", msg);
+    Ok(true)
+}
+
+fn produced_pn(c: usize, ch: u8, number: u16, value: u16, lsb_first: bool) -> CheckResult {
+    use crate::refmodel::*;
+    use helgoboss_midi::{DataEntryByteOrder, RawShortMessage};
+    let msg = crate::p_nrpn::ctor_build(c, ch, number, value);
+    let a: [Option<RawShortMessage>; 4] = api(|| msg.to_short_messages(if lsb_first { DataEntryByteOrder::LsbFirst } else { DataEntryByteOrder::MsbFirst }));
+    for x in a.iter().flatten() {
+        check_bytes(x)?;
+    }
+    let r = observe_pn(&msg);
+    ensure!(r.channel <= 15 && r.number <= 16383 && r.value <= 16383, "produced_out_of_range/pn_accessor", "{:?}", r);
+    Ok(true)
+}
+
+fn produced_by_scanners(a: &[crate::ops::Op], b: &[crate::ops::Op]) -> Result<ROutcome, Fail> {
+    use crate::ops::*;
+    use crate::refmodel::*;
+    use helgoboss_midi::{ControlChange14BitMessageScanner, ParameterNumberMessageScanner};
+    {
+        let mut reports = 0;
+        let mut sc = api(ControlChange14BitMessageScanner::new);
+        for op in a {
+            match *op {
+                Op::Feed { carrier, s, d1, d2 } => {
+                    if let Some(m) = feed_cc14(&mut sc, carrier, s, d1, d2) {
+                        reports += 1;
+                        let o = observe_cc14(&m);
+                        ensure!(o.0 <= 15 && o.1 <= 31 && o.2 <= 16383 && api(|| m.lsb_controller_number()).get() <= 63, "produced_out_of_range/cc14_scanner", "{:?}", m);
+                    }
+                }
+                Op::Reset => api(|| sc.reset()),
+                _ => {}
+            }
+        }
+        let mut sc = api(ParameterNumberMessageScanner::new);
+        for op in b {
+            match *op {
+                Op::Feed { carrier, s, d1, d2 } => {
+                    if let Some(m) = feed_nrpn(&mut sc, carrier, s, d1, d2) {
+                        reports += 1;
+                        let r = observe_pn(&m);
+                        ensure!(r.channel <= 15 && r.number <= 16383 && r.value <= 16383 && (r.is_14_bit || r.value <= 127), "produced_out_of_range/nrpn_scanner", "{:?}", r);
+                    }
+                }
+                Op::Reset => api(|| sc.reset()),
+                _ => {}
+            }
+        }
+        Ok(ROutcome { nontrivial: reports > 0, classes: if reports > 0 { vec!["has_report"] } else { vec![] }, hash: hash64(&(a, b)) })
     }
 }
